@@ -125,6 +125,14 @@ def observe_dataset(ds, coder):
     return [observe_ranking(r, coder) for r in ds.rankings]
 
 
+def conv_like_dataset(ds, raw_ranking):
+    """values of a raw ranking converted the way the dataset homogenised its elements (int-like strings -> int)."""
+    types = {e.type for e in ds.universe}
+    if types == {int}:
+        return [[int(x) if str(x).isdigit() else x for x in b] for b in raw_ranking]
+    return [[str(x) for x in b] for b in raw_ranking]
+
+
 def canon_ranking(obs):
     """Canonical form for comparison when member order is immaterial."""
     return [sorted(b) for b in obs]
